@@ -337,8 +337,65 @@ def _work(ctx: Ctx, item):
             ctx.sample({"pgn": d.pgn, "definition": key, "fast": d.fast})
 
 
+def run_many(key, n_streams, fmt, by="source"):
+    """n_streams fast-packet messages in flight at once on ONE decoder (every device answering a request at the same moment; or one
+    device sending many PGNs), frames round-robin: each equals its pre-assembled delivery."""
+    from nmea2000.decoder import NMEA2000Decoder
+    db = canboat.db()
+    if by == "source":
+        d = db.by_key[key]
+        p, nb, _ = gen.benign_payload(d)
+        base = p.to_bytes(nb, "little")
+        streams = [(d.pgn, k % 254, 255, base, k % 8) for k in range(n_streams)]
+    else:
+        fast = [x for x in db.defs if x.fast and x.supported and x.ptype == "Fast" and len(db.by_pgn[x.pgn]) == 1][:n_streams]
+        streams = []
+        for k, x in enumerate(fast):
+            p, nb, _ = gen.benign_payload(x)
+            streams.append((x.pgn, 7, 255, p.to_bytes(nb, "little"), k % 8))
+    render = {"ebyte": lambda dec, i, fr: dec.decode_tcp(wire.ebyte(i, fr)), "usb": lambda dec, i, fr: dec.decode_usb(wire.usb(i, fr)),
+              "yd": lambda dec, i, fr: dec.decode_yacht_devices_string(wire.yd(i, fr, "R", True, "12:34:56.789"))}[fmt]
+    dec = NMEA2000Decoder(**DEC_KW)
+    segs = [wire.segment(pl, seq) for _, _, _, pl, seq in streams]
+    got = [None] * len(streams)
+    for i in range(max(len(x) for x in segs)):
+        for k, (pgn, src, dest, pl, seq) in enumerate(streams):
+            if i >= len(segs[k]):
+                continue
+            try:
+                r = render(dec, wire.ident(pgn, src, dest, 6), segs[k][i])
+            except Exception as e:          # noqa: BLE001
+                r = None
+            if r is not None:
+                got[k] = canon(r) if i == len(segs[k]) - 1 else ("early", canon(r))
+    bad = []
+    for k, (pgn, src, dest, pl, seq) in enumerate(streams):
+        try:
+            whole = canon(NMEA2000Decoder(**DEC_KW).decode_basic_string(wire.plain(pgn, src, dest, 6, pl, "2024-01-02-03:04:05.678", False), already_combined=True))
+        except Exception:
+            whole = None
+        if got[k] != whole:
+            bad.append((k, pgn, src))
+    return bad, len(streams)
+
+
+def _many(ctx: Ctx, item):
+    key, n_streams, fmt, by = item
+    ctx.count()
+    ctx.nontrivial_extra += 1
+    bad, n = run_many(key, n_streams, fmt, by)
+    ctx.klass(f"streams_in_flight:{'<=16' if n <= 16 else '<=64' if n <= 64 else '>64'}")
+    if bad:
+        ctx.report(f"C07|many-streams|{fmt}|by-{by}", f"{n} fast-packet messages in flight on one decoder ({'one per source' if by == 'source' else 'one per PGN'}), frames "
+                   f"round-robin through {fmt}: {len(bad)} of them differ from their pre-assembled delivery (first: stream {bad[0][0]}, PGN {bad[0][1]}, source {bad[0][2]})",
+                   {"many": True, "definition": key, "streams": n_streams, "format": fmt, "by": by})
+
+
 def run(ctx: Ctx):
     from .. import longrun
+    sizes = (2, 9, 17, 40, 120, 254) if ctx.quick else (2, 3, 5, 9, 16, 17, 18, 31, 33, 40, 64, 65, 100, 120, 200, 254)
+    pmap(ctx, _many, [(k, n_, f, "source") for k in ("126996/productInformation", "129029/gnssPositionData", "127506/dcDetailedStatus") for n_ in sizes for f in ("ebyte", "usb", "yd")]
+         + [(None, n_, f, "pgn") for n_ in (5, 20, 60) for f in ("ebyte", "usb", "yd")])
     pmap(ctx, longrun.ticks, [(x, "C07") for x in longrun.limits(ctx)])
     db = canboat.db()
     # one definition per PGN is enough to name the PGN; payload validity is drawn from that definition
@@ -353,6 +410,9 @@ def replay(ctx: Ctx, case):
     if "ticks" in case:
         from .. import longrun
         return longrun.replay(case, "C07")
+    if case.get("many"):
+        bad, n = run_many(case["definition"], case["streams"], case["format"], case["by"])
+        return [(f"C07|many-streams|{case['format']}|by-{case['by']}", f"{len(bad)} of {n} concurrent fast-packet messages differ from their pre-assembled delivery", case)] if bad else []
     if case.get("interleaved"):
         a, b = [(x[0], x[1], bytes.fromhex(x[2]), x[3]) for x in case["interleaved"]]
         res = []
